@@ -1175,7 +1175,10 @@ func handleState(fr *FrameHeader, strm *Stream) {
 	case StreamStateReserved:
 		// TODO: ...
 	case StreamStateOpen:
-		if fr.Flags().Has(FlagEndStream) {
+		// END_STREAM is a flag of DATA and HEADERS. The same bit on any other
+		// frame means nothing and has to be ignored (RFC 7540 4.1): a
+		// WINDOW_UPDATE with it set must not end the request.
+		if (fr.Type() == FrameData || fr.Type() == FrameHeaders) && fr.Flags().Has(FlagEndStream) {
 			strm.SetState(StreamStateHalfClosed)
 		} else if fr.Type() == FrameResetStream {
 			strm.SetState(StreamStateClosed)
